@@ -304,3 +304,20 @@ theorem tkOfLex_num (num : List (Str × Nat)) (t : Ecal.Lex.Tok) (txt : Str) (b 
             split at h <;> cases h
 
 end Ecal.Props.C03
+
+namespace Ecal.Props.C03
+open Ecal.Expr Ecal.Expr.Spec
+
+/-- the list value `[a₁, …, aₙ]` of literals / identifiers -/
+def atomItems : List Atom → Items
+  | [] => .nil
+  | a :: as => .cons (.atom a) (atomItems as)
+
+theorem atomItems_prints : ∀ (as : List Atom), PrintsItems (atomItems as) (as.map TK.atom ++ [.rb])
+  | [] => PrintsItems.nil
+  | [a] => PrintsItems.last (ts := [.atom a]) Prints.atom
+  | a :: b :: rest =>
+    PrintsItems.juxt (ts := [.atom a]) (a := b) (tl := rest.map TK.atom ++ [.rb]) Prints.atom
+      (atomItems_prints (b :: rest)) rfl
+
+end Ecal.Props.C03
